@@ -13,7 +13,7 @@ import os, sys, subprocess, hashlib, json, time, glob, shutil, fcntl
 
 VERIF = os.path.dirname(os.path.dirname(os.path.abspath(__file__)))
 REPO = os.environ.get("ARK_REPO", "/repo")
-KEEP_KEYS = 4
+KEEP_KEYS = 10
 DRIVER = os.path.join(VERIF, "arkfacts", "target", "release", "arkfacts")
 FACTS = os.path.join(VERIF, ".facts")
 CACHE = os.path.join(VERIF, ".cache")
